@@ -559,6 +559,7 @@ func runC14(t *testing.T, rep *mc.Reporter) {
 		same  bool
 		topo  []string
 		foo   bool
+		colo  bool
 	}
 	var cplans []cplan
 	for _, ls := range laneSeqs {
@@ -604,6 +605,15 @@ func runC14(t *testing.T, rep *mc.Reporter) {
 			tplans = append(tplans, cplan{lanes: []int{0, 1, 0}, bound: tb, mode: mode, topo: tp})
 		}
 	}
+	// both lanes on one node: the transaction queued behind a redirected one on the same node pipeline
+	for _, tp := range [][]string{{"O"}, {"M", "F"}} {
+		tb := 1
+		if tier == "thorough" {
+			tb = 2
+		}
+		tplans = append(tplans, cplan{lanes: []int{0, 1, 0}, bound: tb, mode: "parallel", topo: tp, colo: true},
+			cplan{lanes: []int{0, 1}, bound: tb + 1, mode: "parallel", topo: tp, colo: true})
+	}
 	fam := os.Getenv("VERIF_FAMILY") // development aid / parts: "cauto" = only the AutoFlush cluster plan
 	if fam == "cauto" {
 		var keep []cplan
@@ -629,7 +639,7 @@ func runC14(t *testing.T, rep *mc.Reporter) {
 			rep.Capped("cluster scenarios: their share of the deadline is used up")
 			break
 		}
-		cscn := c14cScenario{Lanes: cp.lanes, Cfg: biCfg{cp.mode, 2}, MaxCrashes: ccrashes, Idle: 1, Cluster: true, Soft: cp.soft, Pre: cp.pre, AutoFlush: cp.auto, PreSameLife: cp.same, Topo: cp.topo, Foo: cp.foo}
+		cscn := c14cScenario{Lanes: cp.lanes, Cfg: biCfg{cp.mode, 2}, MaxCrashes: ccrashes, Idle: 1, Cluster: true, Soft: cp.soft, Pre: cp.pre, AutoFlush: cp.auto, PreSameLife: cp.same, Topo: cp.topo, Foo: cp.foo, Colo: cp.colo}
 		if len(cp.topo) > 0 {
 			cscn.MaxCrashes = 0
 		}
